@@ -84,14 +84,21 @@ def rand_params(rng, gated: set, allow_untyped=True):
                 tkey = "int"
                 anno, tm = TYPES[tkey]
                 default = "lit"
+        unknown_untyped = False
         if default == "unknown":
             untyped = False
             tkey, (anno, tm) = "int", TYPES["int"]
+            # ... or no hint at all and a default that is an operator applied to something that is no literal: the parameter is
+            # written with the unknown type and the unknown value, both flagged
+            unknown_untyped = rng.random() < 0.4
         if default in ("lit", "none") and tkey not in ("int", "opt"):
             # a literal default must fit the annotation; containers get None
             default = "none"
             anno = anno if "None" in anno else f"{anno} | None"
         src_default = {"lit": "3", "none": "None", "unknown": "not True", None: None}[default]
+        if unknown_untyped:
+            src_default = rng.choice(["-_untyped_source()", "-len('ab')", "not _untyped_source()", "-_untyped_source().real"])
+            anno, tm = None, set()
         if default == "lit" and tkey == "opt":
             src_default = "3"
         if untyped:
